@@ -140,6 +140,22 @@ theorem load_modelError_not_sane (r : RawModel) (s : Nat) (hs : r.startId = some
     exact (modelError_iff_not_sane _).mp he
   · cases h
 
+/-- a root with three pattern edges to the same child -/
+def dupEdges : Model :=
+  { version := some maxVersion, startId := 0, namedCnt := 1,
+    nodes := [
+      { id := some 0, parent := none, ruleNames := [], vEdges := [],
+        pEdges := [⟨some 1, some 1, []⟩, ⟨some 1, some 1, []⟩, ⟨some 1, some 1, []⟩], signCons := [] },
+      { id := some 1, parent := some 0, ruleNames := ["#r"], vEdges := [], pEdges := [], signCons := [] }] }
+
+/-- **why the bound is not a function of the number of nodes.**  The documented sanity rules do not forbid several edges
+    to one destination: `dupEdges` has two nodes, three pattern edges on one of them, and is accepted; the search tries
+    every edge, so the number of iterations grows with `maxPE`, whatever the number of nodes. -/
+theorem bound_needs_maxPE :
+    sanityCheck dupEdges = .ok () ∧ dupEdges.nodes.length = 2 ∧ maxPE dupEdges = 3 ∧
+    (matchIter dupEdges Example.noFns [Example.cA] []).outs.length = 3 := by
+  refine ⟨accepted_of _ (by decide) (by decide), rfl, by decide, by decide⟩
+
 /-! ### non-vacuity -/
 
 /-- the empty byte string: no `StartId` and no version → `LvsModelError` -/
